@@ -9,19 +9,20 @@ PROPERTY = "C57"
 OBS = "logger/_observer.py"
 FIL = "logger/_filter.py"
 BUF = "logger/_buffer.py"
-TECHNIQUE = "CFG path rules, who-may-write, concrete interpretation of filter over short histories"
+TECHNIQUE = "concrete interpretation of publisher, filters, history over all short histories"
 EXPLANATION = (
-    "LogPublisher.__call__: every observer(event) call-out of the fan-out loop lies in a try whose handler stops Exception "
-    "without re-raising and records (observer, Failure()); exactly one call per iteration, the loop walks self._observers "
-    "forward and cannot be left early; _observers is only appended to (de-duplicated), removed from or rebuilt from the "
-    "constructor arguments; failures are reported only after the fan-out loop, once each, through a publisher built from every "
-    "observer except (identity) the broken one. LogLevelFilterPredicate: the class is interpreted concretely (instance attributes from __init__ carried "
-    "across calls) over every history of length <= 5 of setLogLevelForNamespace / clearLogLevels / logLevelForNamespace on a prefix "
-    "chain of three namespaces and two levels (states de-duplicated); every query must equal the most-specific-configured-prefix "
-    "oracle computed from the configuration history alone and terminate, and in every explored state __call__ must answer `no` "
-    "exactly when eventLevel < that level and `maybe` otherwise; set/clear write the table under the given key. shouldLogEvent / FilteringLogObserver route yes/no/maybe correctly. LimitedHistoryLogObserver: deque(maxlen=size), "
-    "append at the right end, forward replay, one call per event. Not decided: observer lists mutated during dispatch, "
-    "behaviour of observers themselves."
+    "All three anchored classes are interpreted from their AST (private helpers and module functions followed) against recording "
+    "observer models and compared with the specification. LogPublisher: every history of <= 4 addObserver / removeObserver calls "
+    "over two healthy and two raising observers (states de-duplicated); in every reached state a plain and a traced event are "
+    "published and the global journal must be: each registered observer exactly once in registration order with the event itself, "
+    "then, per raising observer, a failure event (OBSERVER_DISABLED, its Failure, observer=it) to every other observer, recursively; "
+    "log_trace must list (publisher, observer) per delivery; constructor order, non-callable rejection. LogLevelFilterPredicate: "
+    "every history of length <= 5 of set / clear / query on a three-namespace prefix chain with two levels against the "
+    "most-specific-configured-prefix oracle, and __call__ == `no` exactly when eventLevel < that level. shouldLogEvent / "
+    "FilteringLogObserver: all predicate-result sequences of length <= 3 (first yes/no decides, predicates asked in order and no "
+    "further, invalid result raises, wrapped vs negative observer, trace). LimitedHistoryLogObserver: sizes 1, 2, 3, None, default "
+    "x 6 events, two replays after each event must both yield the last N events oldest first. Not decided: observer lists mutated "
+    "during dispatch, behaviour of twisted.logger.Logger beyond failure() emitting one event to its observer (modelled)."
 )
 ASSUMPTIONS = [
     "observers are called synchronously; BaseException (KeyboardInterrupt, SystemExit) deliberately propagates",
